@@ -117,6 +117,8 @@ theorem step_shards {σ : St} (op : Op) {s : XShard} (h : s ∈ (step σ op).sha
   | cache =>
     simp only [step] at h
     split at h <;> exact Or.inl ⟨s, h, rfl, rfl⟩
+  | offload => exact Or.inl ⟨s, h, rfl, rfl⟩
+  | rollback => exact Or.inl ⟨s, h, rfl, rfl⟩
 
 theorem step_cs {σ : St} (op : Op) {c : CSh} (h : c ∈ (step σ op).cs) :
     ∃ c0 ∈ σ.cs, c.iid = c0.iid ∧ c.endT = c0.endT := by
@@ -148,6 +150,8 @@ theorem step_cs {σ : St} (op : Op) {c : CSh} (h : c ∈ (step σ op).cs) :
     · simp only [procI] at h; exact ⟨c, h, rfl, rfl⟩
     · exact ⟨c, h, rfl, rfl⟩
   | cache => simp only [step] at h; split at h <;> exact ⟨c, h, rfl, rfl⟩
+  | offload => exact ⟨c, h, rfl, rfl⟩
+  | rollback => exact ⟨c, h, rfl, rfl⟩
 
 theorem step_ci {σ : St} (op : Op) {c : CIx} (h : c ∈ (step σ op).ci) :
     ∃ c0 ∈ σ.ci, c.iid = c0.iid ∧ c.endT = c0.endT := by
@@ -179,6 +183,8 @@ theorem step_ci {σ : St} (op : Op) {c : CIx} (h : c ∈ (step σ op).ci) :
     · exact procI_ci_back h
     · exact ⟨c, h, rfl, rfl⟩
   | cache => simp only [step] at h; split at h <;> exact ⟨c, h, rfl, rfl⟩
+  | offload => exact ⟨c, h, rfl, rfl⟩
+  | rollback => exact ⟨c, h, rfl, rfl⟩
 
 theorem step_idxs {σ : St} (op : Op) {x : XIndex} (h : x ∈ (step σ op).idxs) : Top σ x.iid x.b.endTime := by
   cases op with
@@ -226,6 +232,8 @@ theorem step_idxs {σ : St} (op : Op) {x : XIndex} (h : x ∈ (step σ op).idxs)
       · exact Top.idx h
     · exact Top.idx h
   | cache => simp only [step] at h; split at h <;> exact Top.idx h
+  | offload => exact Top.idx h
+  | rollback => exact Top.idx h
 
 theorem mem_nilIInfos {idxs : List XIndex} {ci : List CIx} {d : Int} {n : IInfo}
     (h : n ∈ nilIInfos idxs (iInfos ci d)) : n.dur = d ∧ ∃ c ∈ ci, c.iid = n.iid ∧ c.endT = n.endT := by
@@ -269,6 +277,8 @@ theorem step_nilI {σ : St} (op : Op) {n : IInfo} (h : n ∈ (step σ op).nilI) 
     · simp only [procI] at h; exact Top.nil h
     · exact Top.nil h
   | cache => simp only [step] at h; split at h <;> exact Top.nil h
+  | offload => exact Top.nil h
+  | rollback => exact Top.nil h
 
 /-- a queued item was queued before, or `ExpiredIndexes` has just reported it. -/
 theorem step_iq {σ : St} (op : Op) {q : IQ} (h : q ∈ (step σ op).iq) :
@@ -307,6 +317,8 @@ theorem step_iq {σ : St} (op : Op) {q : IQ} (h : q ∈ (step σ op).iq) :
       exact Or.inl (hq ▸ List.mem_cons_of_mem _ h)
     · exact Or.inl h
   | cache => simp only [step] at h; split at h <;> exact Or.inl h
+  | offload => exact Or.inl h
+  | rollback => exact Or.inl h
 
 theorem Low.step {σ : St} (op : Op) {i : Nat} {e : Int} (h : Low (step σ op) i e) : Low σ i e :=
   Low.of (fun _ hs => step_shards op hs) (fun _ hc => step_cs op hc) h
@@ -384,6 +396,8 @@ theorem step_log {σ : St} (op : Op) {ev : Ev} (h : ev ∈ (step σ op).log) :
       · exact Or.inl h
     · exact Or.inl h
   | cache => simp only [step] at h; split at h <;> exact Or.inl h
+  | offload => exact Or.inl h
+  | rollback => exact Or.inl h
 
 /-! ### invariant A -/
 
